@@ -28,6 +28,10 @@ impl CssData {
     pub fn into_iter(self) -> impl Iterator<Item = Item> {
         self.imports.into_iter().map(Into::into).chain(self.body)
     }
+    /// Return true if the module at `path` is loaded already.
+    pub fn is_loaded(&self, path: &str) -> bool {
+        self.modules.contains_key(path)
+    }
     pub fn load_module<Init>(
         &mut self,
         path: &str,
